@@ -1,3 +1,419 @@
 package main
 
-func cmdFuzz(args []string) int { return 2 }
+// Binding B: seeded byte streams (class walks with every class anywhere, byte-level mutations of them,
+// raw garbage: wrong magic, oversized lines, truncated bodies, huge / negative length prefixes) are sent
+// to real daemons in one go (pipelined, optionally in pieces), the client closes its write side, reads
+// every frame until the daemon closes, and records: the classified commands, the frames, what /stats
+// says was enqueued, daemon + bystander liveness.  TLC validates the record against the table.
+
+import (
+	"crypto/sha1"
+	"fmt"
+	"math/rand"
+	"os"
+	"sort"
+	"strings"
+	"sync"
+	"sync/atomic"
+	"time"
+
+	"github.com/nsqio/nsq/verifharness/hlib"
+)
+
+type streamRec struct {
+	Sid    string
+	Kind   string
+	Bytes  []byte
+	Events []CEvent
+	Frames []map[string]interface{}
+	Enq    int64
+	Alive  bool
+}
+
+type FuzzReport struct {
+	Streams      int               `json:"streams"`
+	Distinct     int               `json:"distinct_streams"`
+	Traces       int               `json:"traces"`
+	Commands     int64             `json:"commands"`
+	Kinds        map[string]int    `json:"kinds"`
+	Violations   []*Mismatch       `json:"violations"`
+	Drift        []*Mismatch       `json:"drift"`
+	Inconclusive []*Mismatch       `json:"inconclusive"`
+	Unreproduced []*Mismatch       `json:"unreproduced"`
+	Bystander    map[string][2]int64 `json:"bystander"`
+	Limits       map[string]Limits `json:"limits"`
+	Samples      []interface{}     `json:"samples"`
+	WallS        float64           `json:"wall_s"`
+}
+
+// rows usable in a pipelined stream: nothing that needs an id learnt at run time, no compression
+func streamable(r Row) bool {
+	c := r.Cmd
+	switch {
+	case c.Op == "MAGIC":
+		return false
+	case (c.Op == "FIN" || c.Op == "REQ" || c.Op == "TOUCH") && (c.A == "held" || c.A == "other"):
+		return false
+	case c.Op == "IDENTIFY" && (c.A == "dl" || (c.A == "comp" && (c.B == "snappy" || c.B == "deflate"))):
+		return false
+	case c.A == "valid1" || c.B == "valid1": // single-byte names are left to binding A
+		return false
+	}
+	return true
+}
+
+// classWalk: a random walk over the table (no deliveries: held = avail = 0 throughout).
+func classWalk(tab *Table, g *Gen, r *rand.Rand, maxLen int) []byte {
+	s := startFSM
+	row, _ := tab.Find(s, Cmd{"MAGIC", "v2", "-", "-"})
+	out := g.Concretise(row.Cmd).Bytes
+	s = row.To
+	n := 1 + r.Intn(maxLen)
+	for i := 0; i < n; i++ {
+		s.Held, s.Av = 0, 0
+		var cand, soft []Row
+		for _, x := range tab.Rows[s] {
+			if streamable(x) {
+				cand = append(cand, x)
+				if !x.Fatal {
+					soft = append(soft, x)
+				}
+			}
+		}
+		if len(cand) == 0 {
+			break
+		}
+		pick := cand[r.Intn(len(cand))]
+		if len(soft) > 0 && (i < n-1 || r.Intn(2) == 0) && r.Intn(8) != 0 {
+			pick = soft[r.Intn(len(soft))]
+		}
+		w := g.Concretise(pick.Cmd)
+		out = append(out, w.Bytes...)
+		if pick.Fatal || w.HalfClose {
+			break
+		}
+		s = pick.To
+	}
+	return out
+}
+
+func mutate(b []byte, r *rand.Rand) []byte {
+	b = append([]byte(nil), b...)
+	n := 1 + r.Intn(3)
+	for i := 0; i < n && len(b) > 4; i++ {
+		p := 4 + r.Intn(len(b)-4) // usually keep the magic
+		if r.Intn(25) == 0 {
+			p = r.Intn(len(b))
+		}
+		switch r.Intn(10) {
+		case 0: // flip a bit
+			b[p] ^= 1 << uint(r.Intn(8))
+		case 1: // random byte
+			b[p] = byte(r.Intn(256))
+		case 2: // insert a byte
+			b = append(b[:p], append([]byte{byte(r.Intn(256))}, b[p:]...)...)
+		case 3: // delete a byte
+			b = append(b[:p], b[p+1:]...)
+		case 4: // delete a range
+			q := p + r.Intn(1+min(len(b)-p, 40))
+			b = append(b[:p], b[q:]...)
+		case 5: // duplicate a range
+			q := p + r.Intn(1+min(len(b)-p, 60))
+			dup := append([]byte(nil), b[p:q]...)
+			b = append(b[:q], append(dup, b[q:]...)...)
+		case 6: // a stray newline or space
+			c := byte('\n')
+			if r.Intn(2) == 0 {
+				c = ' '
+			}
+			b = append(b[:p], append([]byte{c}, b[p:]...)...)
+		case 7: // cut the tail
+			b = b[:p]
+		case 8: // an interesting 32-bit value
+			if p+4 <= len(b) {
+				v := [][]byte{{0, 0, 0, 0}, {0xff, 0xff, 0xff, 0xff}, {0x80, 0, 0, 0}, {0x7f, 0xff, 0xff, 0xff}, {0, 0, 0, 1}, {0, 0x10, 0, 0}}
+				copy(b[p:], v[r.Intn(len(v))])
+			}
+		case 9: // a digit becomes many
+			if b[p] >= '0' && b[p] <= '9' {
+				ins := []byte(strings.Repeat("9", 1+r.Intn(25)))
+				b = append(b[:p], append(ins, b[p:]...)...)
+			}
+		}
+	}
+	return b
+}
+
+func min(a, b int) int {
+	if a < b {
+		return a
+	}
+	return b
+}
+
+func garbage(r *rand.Rand) []byte {
+	var b []byte
+	switch r.Intn(6) {
+	case 0: // random bytes, no magic
+		b = make([]byte, r.Intn(300))
+		r.Read(b)
+	case 1: // magic + random bytes
+		b = make([]byte, r.Intn(3000))
+		r.Read(b)
+		b = append([]byte("  V2"), b...)
+	case 2: // oversized line without newline
+		b = append([]byte("  V2"), []byte(strings.Repeat(string(rune('A'+r.Intn(26))), lineBuf+r.Intn(40000)))...)
+	case 3: // printable noise with newlines
+		b = []byte("  V2")
+		for i := 0; i < 1+r.Intn(8); i++ {
+			w := []string{"PUB", "MPUB", "SUB", "RDY", "FIN", "IDENTIFY", "AUTH", "NOP", "CLS", "DPUB", "REQ", "TOUCH", "x", "", "t", "#ephemeral", "-1", "18446744073709551617"}
+			var l []string
+			for j := 0; j < r.Intn(5); j++ {
+				l = append(l, w[r.Intn(len(w))])
+			}
+			b = append(b, []byte(strings.Join(l, " ")+"\n")...)
+			if r.Intn(3) == 0 {
+				x := make([]byte, r.Intn(12))
+				r.Read(x)
+				b = append(b, x...)
+			}
+		}
+	case 4: // a valid-looking publish with a wild size prefix
+		sz := []uint32{0, 1, 0xffffffff, 0x80000000, 0x7fffffff, uint32(r.Int31()), 5, 1 << 20}[r.Intn(8)]
+		op := []string{"PUB t\n", "MPUB t\n", "DPUB t 10\n", "IDENTIFY\n", "AUTH\n"}[r.Intn(5)]
+		b = append([]byte("  V2"+op), be32(sz)...)
+		x := make([]byte, r.Intn(40))
+		r.Read(x)
+		b = append(b, x...)
+	case 5: // HTTP request to the TCP port, old protocol magic
+		b = []byte([]string{"GET /ping HTTP/1.1\r\nHost: x\r\n\r\n", "  V1SUB t c\n", "\x16\x03\x01\x02\x00\x01\x00"}[r.Intn(3)])
+	}
+	return b
+}
+
+// run one stream against env e (streams of one env run one after the other: /stats deltas are exact)
+func runStream(e *Env, kind, sid string, b []byte, r *rand.Rand) (*streamRec, error) {
+	rec := &streamRec{Sid: sid, Kind: kind, Bytes: b, Events: Classify(b, e.L)}
+	total := func() (int64, []string, error) {
+		ts, err := e.AllTopics()
+		if err != nil {
+			return 0, nil, err
+		}
+		var n int64
+		var names []string
+		for _, t := range ts {
+			if t.Name != "bystander" {
+				n += t.Count
+				names = append(names, t.Name)
+			}
+		}
+		return n, names, nil
+	}
+	before, _, err := total()
+	if err != nil {
+		return nil, err
+	}
+	t, err := Dial(e.TCP)
+	if err != nil {
+		return nil, err
+	}
+	defer t.Close()
+	// in one piece or in a few
+	if r.Intn(3) == 0 && len(b) > 2 {
+		cut := 1 + r.Intn(len(b)-1)
+		t.Send(b[:cut], false)
+		time.Sleep(time.Duration(r.Intn(2000)) * time.Microsecond)
+		t.Send(b[cut:], true)
+	} else {
+		t.Send(b, true)
+	}
+	deadline := time.Now().Add(120 * time.Second)
+	for {
+		f, err := t.Next(time.Until(deadline))
+		if err == errTimeout {
+			return nil, fmt.Errorf("stream %s: daemon did not close the connection within 120s after the client's EOF", sid)
+		}
+		if err != nil {
+			if isClose(err) {
+				break
+			}
+			rec.Frames = append(rec.Frames, map[string]interface{}{"t": "bad", "v": err.Error()})
+			break
+		}
+		switch f.ft {
+		case 0:
+			v := string(f.data)
+			if strings.HasPrefix(v, "{") && strings.Contains(v, `"max_rdy_count"`) {
+				v = "JSON"
+			} else if len(v) > 40 {
+				v = v[:40]
+			}
+			rec.Frames = append(rec.Frames, map[string]interface{}{"t": "resp", "v": v})
+		case 1:
+			rec.Frames = append(rec.Frames, map[string]interface{}{"t": "err", "v": codeOf(f.data)})
+		default:
+			rec.Frames = append(rec.Frames, map[string]interface{}{"t": "bad", "v": fmt.Sprintf("frame type %d", f.ft)})
+		}
+	}
+	after, names, err := total()
+	if err != nil {
+		return nil, err
+	}
+	rec.Enq = after - before
+	rec.Alive = e.Alive() == nil
+	for _, n := range names {
+		e.DeleteTopic(n) // best effort: an ephemeral topic may already be gone
+	}
+	return rec, nil
+}
+
+func cmdFuzz(args []string) int {
+	fs := newFlags("fuzz")
+	rowsPath := fs.String("rows", "", "table printed by TLC")
+	seed := fs.Int64("seed", 1, "seed")
+	nstreams := fs.Int("streams", 2000, "streams to send")
+	nenvs := fs.Int("envs", 6, "daemons (streams of one daemon run sequentially)")
+	outPath := fs.String("out", "", "trace (ndjson)")
+	report := fs.String("report", "", "report file")
+	scratch := fs.String("scratch", ".", "scratch directory")
+	dump := fs.String("dump", "", "directory to keep every stream's bytes in (debugging)")
+	fs.Parse(args)
+	t0 := time.Now()
+	tab, err := LoadTable(*rowsPath)
+	if err != nil {
+		return die(err)
+	}
+	rep := &FuzzReport{Kinds: map[string]int{}, Bystander: map[string][2]int64{}, Limits: map[string]Limits{}}
+	lr := rand.New(rand.NewSource(*seed + 7777))
+	var envs []*Env
+	for i := 0; i < *nenvs; i++ {
+		kind := "small"
+		if i == *nenvs-1 {
+			kind = "big"
+		}
+		e, err := StartEnv(RandomLimits(lr, kind), fmt.Sprintf("%s%d", kind, i), *scratch)
+		if err != nil {
+			return die(err)
+		}
+		defer e.Stop()
+		if _, err := StartBystander(e); err != nil {
+			return die(err)
+		}
+		rep.Limits[e.Kind] = e.L
+		envs = append(envs, e)
+	}
+	var mu sync.Mutex
+	var recs []*streamRec
+	var wg sync.WaitGroup
+	var next int64
+	var firstErr error
+	for ei, e := range envs {
+		wg.Add(1)
+		go func(ei int, e *Env) {
+			defer wg.Done()
+			g := NewGen(*seed*77+int64(ei), e.L, ei)
+			for {
+				i := int(atomic.AddInt64(&next, 1)) - 1
+				if i >= *nstreams {
+					return
+				}
+				r := rand.New(rand.NewSource(seqSeed(*seed, i, "stream")))
+				g.R = r
+				g.Seq = i
+				g.seqNames = map[string]string{}
+				var b []byte
+				kind := ""
+				switch x := r.Intn(10); {
+				case x < 3:
+					kind, b = "classwalk", classWalk(tab, g, r, 12)
+				case x < 8:
+					kind, b = "mutated", mutate(classWalk(tab, g, r, 10), r)
+				default:
+					kind, b = "garbage", garbage(r)
+				}
+				rec, err := runStream(e, kind, fmt.Sprintf("%d@%s", i, e.Kind), b, r)
+				mu.Lock()
+				if err != nil {
+					if firstErr == nil {
+						firstErr = err
+					}
+					mu.Unlock()
+					return
+				}
+				recs = append(recs, rec)
+				mu.Unlock()
+				if *dump != "" {
+					os.WriteFile(fmt.Sprintf("%s/stream-%d.bin", *dump, i), b, 0644)
+				}
+			}
+		}(ei, e)
+	}
+	wg.Wait()
+	if firstErr != nil {
+		rep.Inconclusive = append(rep.Inconclusive, &Mismatch{Kind: "timeout", What: firstErr.Error()})
+	}
+	sort.Slice(recs, func(i, j int) bool { return recs[i].Sid < recs[j].Sid })
+	out, err := hlib.NewNDJSON(*outPath)
+	if err != nil {
+		return die(err)
+	}
+	distinct := map[[20]byte]bool{}
+	for _, rec := range recs {
+		rep.Kinds[rec.Kind]++
+		distinct[sha1.Sum(rec.Bytes)] = true
+		frames := rec.Frames
+		if frames == nil {
+			frames = []map[string]interface{}{}
+		}
+		out.Put(map[string]interface{}{"ev": "Stream", "sid": rec.Sid, "kind": rec.Kind, "frames": frames, "bytes": describe(rec.Bytes)})
+		for _, ev := range rec.Events {
+			if ev.Opaque {
+				out.Put(map[string]interface{}{"ev": "Opaque", "sid": rec.Sid})
+				continue
+			}
+			rep.Commands++
+			out.Put(map[string]interface{}{"ev": "Cmd", "sid": rec.Sid, "op": ev.Cmd.Op, "a": ev.Cmd.A, "b": ev.Cmd.B, "c": ev.Cmd.C, "nm": ev.NMsgs})
+		}
+		out.Put(map[string]interface{}{"ev": "End", "sid": rec.Sid, "enq": rec.Enq, "alive": rec.Alive})
+		if !rec.Alive {
+			rep.Violations = append(rep.Violations, &Mismatch{Kind: "daemon", Row: rec.Sid, What: "nsqd does not answer /ping after stream " + describe(rec.Bytes)})
+		}
+		if len(rep.Samples) < 6 && (len(rep.Samples) == 0 || rec.Kind != recs[0].Kind) {
+			var cs []string
+			for _, ev := range rec.Events {
+				if ev.Opaque {
+					cs = append(cs, "(opaque)")
+				} else {
+					cs = append(cs, ev.Cmd.String())
+				}
+			}
+			rep.Samples = append(rep.Samples, map[string]interface{}{"kind": rec.Kind, "bytes": describe(rec.Bytes), "classified": cs, "frames": rec.Frames, "enqueued": rec.Enq})
+		}
+	}
+	out.Close()
+	rep.Streams, rep.Distinct, rep.Traces = len(recs), len(distinct), len(recs)
+	for _, e := range envs {
+		if err := e.Alive(); err != nil {
+			rep.Violations = append(rep.Violations, &Mismatch{Kind: "daemon", Row: e.Kind, What: "nsqd is not alive after the streams: " + err.Error(), Limits: e.L})
+			continue
+		}
+		probs, late := e.by.Finish()
+		rep.Bystander[e.Kind] = [2]int64{atomic.LoadInt64(&e.by.Published), atomic.LoadInt64(&e.by.Consumed)}
+		if late {
+			rep.Inconclusive = append(rep.Inconclusive, &Mismatch{Kind: "timeout", Row: e.Kind, What: "bystander did not drain in time"})
+		}
+		for _, p := range probs {
+			rep.Violations = append(rep.Violations, &Mismatch{Kind: "bystander", Row: e.Kind, What: "the bystander client was affected: " + p, Limits: e.L})
+		}
+	}
+	rep.WallS = time.Since(t0).Seconds()
+	if err := writeJSON(*report, rep); err != nil {
+		return die(err)
+	}
+	fmt.Printf("fuzz: %d streams (%d distinct; %v), %d classified commands, %d violations, %d inconclusive, %.1fs\n",
+		rep.Streams, rep.Distinct, rep.Kinds, rep.Commands, len(rep.Violations), len(rep.Inconclusive), rep.WallS)
+	if len(rep.Violations) > 0 {
+		return 1
+	}
+	return 0
+}
